@@ -80,7 +80,18 @@ func ruleC10Order(c *ctx.Ctx, r *core.Reporter) {
 			r.Check(entry != "" && nAssign >= 1 && nGuarded == nAssign, "funcs:main-is-a-function", c.Pos(fd.Pos()), fmt.Sprintf("the declaration invoked as the program's main() is selected only among declarations without receiver (%d of %d selections guarded)", nGuarded, nAssign))
 		}
 		s := squash(nodeString(c, fd.Body))
-		r.Check(strings.Contains(s, `ifmainFunc==nil{returnnil,fmt.Errorf("missingmainfunction")}`), "funcs:main-required", c.Pos(fd.Pos()), "a main package without main() is rejected")
+		_ = s
+		r.Check(func() bool {
+			for _, m := range findGoPattern(fd.Body, `if µm == nil { return nil, fmt.Errorf(µmsg) }`) {
+				// the tested variable is the one handed to callMainFunc
+				for _, m2 := range findGoPattern(fd.Body, `µfc.callMainFunc(µv)`) {
+					if m2.Env["µv"] == m.Env["µm"] {
+						return true
+					}
+				}
+			}
+			return false
+		}(), "funcs:main-required", c.Pos(fd.Pos()), "a main package without main() is rejected")
 	}
 	if fd := c.FuncDecl("compiler", "funcContext.newFuncDecl"); fd != nil {
 		if arm := armOf(fd, `"init"`); arm != nil {
